@@ -157,7 +157,7 @@ func genC16Cache(level int) []*CacheScen {
 	readers := []CIn{cGet, cGetExp, cGetTTL, cCount}
 	cCPark := CIn{Op: CCompute, Fn: FnSet, D: durNoExp}
 	stallers := []CIn{cSet, cDelete, cGaS, cCPark, cGoC, cDelExp, cClear, cRange, cGaR}
-	for _, tw := range []int{0, 1} {
+	for _, tw := range []int{0, 1, 2} {
 		add := func(cs *CacheScen) {
 			cs.Twin = tw
 			cs.NoBlock = []bool{true, false}
